@@ -46,7 +46,7 @@ type counters struct {
 	images, imageImportFiles, imageNonTargetModuleFiles, lsfiles, lsWithWKT                              atomic.Int64
 	dupDepsDemands, dupImageDemands, dupNoDemand                                                         atomic.Int64
 	missDepsDemands, missImageDemands                                                                    atomic.Int64
-	filtered                                                                                             atomic.Int64
+	filtered, layoutSpecs                                                                                atomic.Int64
 }
 
 type checker struct {
@@ -76,7 +76,10 @@ func allKinds(n int, alphabet []Kind) [][]Kind {
 func (s Spec) targets() []Target {
 	ts := []Target{{Kind: "all"}}
 	for _, i := range s.locals() {
-		ts = append(ts, Target{"dir", i}, Target{"file", i}, Target{"path", i})
+		if !s.shared() { // in the shared-directory layouts the module directory is the whole workspace
+			ts = append(ts, Target{"dir", i})
+		}
+		ts = append(ts, Target{"file", i}, Target{"path", i})
 	}
 	return ts
 }
@@ -108,6 +111,9 @@ func run(r *evid.Run) {
 	if only == "" || only == "graphs" {
 		ck.familyGraphs(maxN)
 	}
+	if only == "" || only == "layouts" {
+		ck.familyLayouts()
+	}
 	if only == "" || only == "plants" {
 		ck.familyPlants(maxN)
 	}
@@ -118,6 +124,7 @@ func run(r *evid.Run) {
 	c := &ck.c
 	r.Set("workspaces_opened", c.workspaces.Load())
 	r.Set("kind_vectors_filtered", c.filtered.Load())
+	r.Set("layout_specs_run", c.layoutSpecs.Load())
 	r.Set("clause_deps_exact_sets_compared", c.depsExact.Load())
 	r.Set("clause_deps_nonempty", c.depsNonEmpty.Load())
 	r.Set("clause_isdirect_with_transitive_dep", c.depsWithTransitive.Load())
@@ -202,6 +209,51 @@ func (ck *checker) familyGraphs(maxN int) {
 	})
 }
 
+// family A': the same oracles on other layouts of the local modules: v2 modules sharing one directory
+// and separated by includes / by excludes; v1beta1 modules with two roots under a buf.work.yaml.
+func (ck *checker) familyLayouts() {
+	r := ck.r
+	var specs []Spec
+	for n := 1; n <= 3; n++ {
+		for _, eg := range enum.Digraphs(n, false) {
+			g := fromEnum(eg)
+			plain := allKinds(n, []Kind{KLocal, KNamed})
+			special := append([][]Kind(nil), plain...)
+			for at := 0; at < n; at++ {
+				for _, k := range []Kind{KRemote, KBoth} {
+					ks := make([]Kind, n)
+					for i := range ks {
+						ks[i] = KNamed
+					}
+					ks[at] = k
+					special = append(special, ks)
+				}
+			}
+			for _, layout := range []string{"incl", "excl", "roots"} {
+				vectors := special
+				if layout == "roots" {
+					vectors = plain
+				}
+				for _, ks := range vectors {
+					s := newSpec(g, ks, layout != "roots")
+					s.Layout = layout
+					if ok, _ := s.valid(); !ok {
+						ck.c.filtered.Add(1)
+						continue
+					}
+					specs = append(specs, s)
+				}
+			}
+		}
+	}
+	r.Set("layout_specs", len(specs))
+	ctx := context.Background()
+	r.ParallelFor(len(specs), 0, func(idx int) {
+		ck.runSpec(ctx, idx, specs[idx])
+		ck.c.layoutSpecs.Add(1)
+	})
+}
+
 // kindVectorN4 keeps the n=4 kind vectors with at most one non-plain node.
 func kindVectorN4(ks []Kind) bool {
 	cnt := map[Kind]int{}
@@ -262,16 +314,27 @@ func (ck *checker) violate(sig, what string, b *Built, t Target, c Case) {
 }
 
 func (ck *checker) checkCase(ctx context.Context, b *Built, t Target, withImage bool) {
-	s := b.Spec
 	ws, err := b.workspace(ctx, t)
 	if err != nil {
 		ck.violate("workspace/unexpected-error/"+errClass(err), "opening a well-formed workspace failed: "+err.Error(), b, t, Case{Error: err.Error()})
 		return
 	}
 	ck.c.workspaces.Add(1)
+	s := resolveIDs(ctx, b.Spec, ws)
+	// In the shared-directory layouts a file or --path target lies in the directory of every module, so
+	// which modules count as targets is not determined by the property; only the image content is.
+	maskTargets := s.shared() && t.Kind != "all"
 
 	// --- module set: every node once, local beats pinned, newest commit wins, targets
 	gotMods, wantMods := observeModules(ws), s.expectModules(t)
+	if maskTargets {
+		for i := range gotMods {
+			gotMods[i].Target = false
+		}
+		for i := range wantMods {
+			wantMods[i].Target = false
+		}
+	}
 	if !reflect.DeepEqual(gotMods, wantMods) {
 		ck.violate(moduleSetSignature(s, gotMods, wantMods), "module set differs from the reference", b, t, Case{Observed: gotMods, Expected: wantMods})
 	}
@@ -329,6 +392,7 @@ func (ck *checker) checkCase(ctx context.Context, b *Built, t Target, withImage 
 	gotDAG, err := observeDAG(ws)
 	dagCycle, wantDAG := s.expectDAG(t)
 	switch {
+	case maskTargets:
 	case dagCycle:
 		ck.c.dagCycle.Add(1)
 		if err == nil {
